@@ -164,4 +164,7 @@ def remove_duplicates(cont):
     x = np.resize(cont, (len(cont) + 1, 2))
     selection = np.ones(len(x), dtype=bool)
     selection[1:] = ~np.prod((x[1:] == x[:-1]), axis=1, dtype=bool)
+    if np.sum(selection) == 1 and len(cont):
+        # all points are identical (e.g. single-pixel mask)
+        return x[:1]
     return x[selection][:-1]
